@@ -21,7 +21,8 @@ RULE = (
     "every lifecycle stage. Enumerated: all ordered pairs of 9 causes at the same instant and one tick apart on an "
     "established session, both framings. Oracle: on_stop called exactly once iff CONNECTED was reached; argument "
     "true iff a graceful initiation precedes the CLOSED write in the trace. non-trivial = session reached CONNECTED "
-    "and >= 2 close causes occurred."
+    "and >= 2 close causes occurred. Kind 'chain': 2-4 consecutive sessions on one client, each with its own callback, the "
+    "next session started from inside the previous stop callback (before / after its first await) or from outside."
 )
 ASSUMPTIONS = [
     "a DisconnectRequest counts as a device-initiated disconnect once delivered in state HANDSHAKE_COMPLETE/CONNECTED "
@@ -39,7 +40,103 @@ PAIR_CAUSES = [
 ]
 
 
+def run_chain(case: dict):
+    """Several consecutive sessions on ONE client, each with its own stop callback; session k+1 may be started
+    from inside session k's stop callback (before or after its first await) or from outside.  Every callback
+    must be invoked exactly once, for its own session, with the right flag."""
+    import asyncio
+    import base64
+
+    from aioesphomeapi import api_pb2 as pb
+
+    from vf.runner import CaseResult, HarnessError, Violation
+    from vf.simloop import START, IterationCap
+    from vf.simnet import Env, make_client
+
+    res = CaseResult()
+    noise = bool(case.get("noise"))
+    env = Env(noise_key=life.KEY if noise else None)
+    cli = make_client(env, noise_psk=base64.b64encode(life.KEY).decode() if noise else None, keepalive=64.0)
+    sessions = case["sessions"]  # [{"end": how, "next": "in_handler"|"in_handler_after_await"|"outside"}]
+    calls: dict[int, list] = {i: [] for i in range(len(sessions))}
+    connected = asyncio.Event() if False else None
+    state = {"connected": [False] * len(sessions), "errors": []}
+
+    def make_cb(i: int):
+        async def cb(expected):
+            calls[i].append(expected)
+            env.log("on_stop", arg=expected, session=i)
+            nxt = sessions[i].get("next")
+            if i + 1 < len(sessions) and nxt in ("in_handler", "in_handler_after_await"):
+                if nxt == "in_handler_after_await":
+                    await asyncio.sleep(0)
+                await start(i + 1)
+        return cb
+
+    async def start(i: int):
+        try:
+            await cli.connect(on_stop=make_cb(i), login=True)
+            state["connected"][i] = True
+            env.log("chain_connected", session=i)
+        except BaseException as e:  # noqa: BLE001
+            state["errors"].append(f"session {i}: connect raised {e!r}")
+
+    async def end(i: int):
+        how = sessions[i]["end"]
+        tr = env.dev.session.transport
+        if how == "discreq":
+            tr.feed(env.dev.session.encode(pb.DisconnectRequest()))
+        elif how == "reset":
+            tr.reset()
+        elif how == "eof":
+            tr.feed_eof()
+        elif how == "disconnect":
+            await cli.disconnect()
+        elif how == "force":
+            await cli.disconnect(force=True)
+
+    async def main():
+        await start(0)
+        for i in range(len(sessions)):
+            for _ in range(40):
+                if state["connected"][i]:
+                    break
+                await asyncio.sleep(1 / 64)
+            if not state["connected"][i]:
+                state["errors"].append(f"session {i} was never established")
+                return
+            await asyncio.sleep(4 / 64)
+            await end(i)
+            await asyncio.sleep(8 / 64)
+            if i + 1 < len(sessions) and sessions[i].get("next") == "outside":
+                await start(i + 1)
+
+    env.loop.sim_at(0, lambda: env.spawn("main", main()))
+    env.loop.horizon = START + 300
+    try:
+        env.run()
+    except IterationCap as e:
+        env.close()
+        raise HarnessError(f"C07 chain: {e}") from e
+    for err in state["errors"]:
+        res.violations.append(Violation(ID, "c07:chain:session-not-established", err))
+    for i, s_ in enumerate(sessions):
+        if not state["connected"][i]:
+            continue
+        want = [s_["end"] in ("discreq", "disconnect", "force")]
+        if calls[i] != want:
+            sig = f"c07:on_stop-count:{len(calls[i])}" if len(calls[i]) != 1 else f"c07:on_stop-arg:{calls[i][0]}-expected-{want[0]}"
+            res.violations.append(Violation(ID, sig, f"chain session {i} (ended by {s_['end']}, started {'from the previous stop callback' if i and sessions[i - 1].get('next') != 'outside' else 'normally'}): its stop callback was called {calls[i]}, expected {want}"))
+    res.classes = ["chain", "reached_connected"] + (["chain_in_handler"] if any(x.get("next", "").startswith("in_handler") for x in sessions) else [])
+    res.nontrivial = len(sessions) >= 2
+    res.info = {"sessions": len(sessions), "calls": {str(k): v for k, v in calls.items()}}
+    env.close()
+    return res
+
+
 def run_case(case):
+    if case.get("kind") == "chain":
+        return run_chain(case)
     res = run_with(ID, case)
     res.nontrivial = "reached_connected" in res.classes and "two_or_more_close_causes" in res.classes
     return res
@@ -86,11 +183,22 @@ def _multi_cause(draw, tier):
     return c
 
 
+@st.composite
+def _chain(draw, tier):
+    n = draw(st.integers(2, 4))
+    return {"kind": "chain", "noise": draw(st.integers(0, 3)) == 0, "sessions": [
+        {"end": draw(st.sampled_from(["discreq", "reset", "eof", "disconnect", "force"])), "next": draw(st.sampled_from(["in_handler", "in_handler", "in_handler_after_await", "outside"]))} for _ in range(n)]}
+
+
 def strategy(tier):
-    return st.one_of(_biased(tier), _multi_cause(tier))
+    return st.one_of(_biased(tier), _biased(tier), _multi_cause(tier), _multi_cause(tier), _chain(tier))
 
 
 def enumerated(tier):
+    for e1 in ("discreq", "reset", "eof", "disconnect", "force"):
+        for nxt in ("in_handler", "in_handler_after_await", "outside"):
+            for e2 in ("discreq", "reset", "force"):
+                yield {"kind": "chain", "noise": e2 == "reset" and nxt == "outside", "sessions": [{"end": e1, "next": nxt}, {"end": e2, "next": nxt}, {"end": e1, "next": "outside"}]}
     for noise in (False, True):
         base = {"noise": noise, "login": True, "flow": "full", "K": 8.0, "final_at": 200.0}
         for c1 in PAIR_CAUSES:
